@@ -590,6 +590,23 @@ func (e *Env) call(n ECall) *Val {
 			}
 		}
 		return boolVal(and(parts...))
+	case "sameOutside": // sameOutside("pattern", slice): the component is unchanged outside the elements of the slice
+		pat := e.compPattern(n.Args[0])
+		cs := e.tr.resolveComps(pat, e.pkg)
+		sv := arg(1)
+		var parts []string
+		for _, c := range cs {
+			cur := e.tr.cur(e.st, c)
+			old := e.tr.cur(e.old, c)
+			if cur == old {
+				continue
+			}
+			e.tr.n++
+			x := fmt.Sprintf("fo_%d", e.tr.n)
+			in := and("(< "+x+" 0)", eq("(elemB "+x+")", sv.A[0]), "(<= "+sv.A[1]+" (elemI "+x+"))", "(< (elemI "+x+") (+ "+sv.A[1]+" "+sv.A[2]+"))")
+			parts = append(parts, "(forall (("+x+" Int)) (! (=> "+not(in)+" (= (select "+cur+" "+x+") (select "+old+" "+x+"))) :pattern ((select "+cur+" "+x+"))))")
+		}
+		return boolVal(and(parts...))
 	case "unchangedHeap":
 		return boolVal(e.tr.unchangedHeap(e.st, e.old, nil, e.allocOld))
 	case "cnt":
